@@ -252,9 +252,11 @@ class Gen:
             return self.sampler_payload(depth)
         return {}
 
-    def envelope(self, lo_y, defaults):
+    def envelope(self, lo_y, defaults, long_ok=False):
         r = self.rng
         n = r.choice([0, 1, 2, 4, 12, 13, 64, r.randint(0, 64)])
+        if long_ok and r.random() < 0.12:
+            n = r.choice([255, 256, 257, 300])      # (volume / panning also have a one-byte legacy count and stop at 255)
         pts = []
         x = 0
         for i in range(n):
@@ -313,8 +315,8 @@ class Gen:
             "samples": {i: self.sample() for i in sorted(slots)},
             "volume_envelope": self.envelope(0, [(0, 0x8000), (8, 0), (0x80, 0), (0x100, 0)]),
             "panning_envelope": self.envelope(-0x4000, [(0, 0), (0x40, -0x2000), (0x80, 0x2000), (0xB4, 0)]),
-            "pitch_envelope": self.envelope(-0x4000, [(0, 0), (0x40, 0)]),
-            "effect_control_envelopes": [self.envelope(0, [(0, 0x8000), (0x40, 0x8000)]) for _ in range(4)],
+            "pitch_envelope": self.envelope(-0x4000, [(0, 0), (0x40, 0)], long_ok=True),
+            "effect_control_envelopes": [self.envelope(0, [(0, 0x8000), (0x40, 0x8000)], long_ok=True) for _ in range(4)],
             "note_samples": [self.pick(0, 255, 0) if r.random() < 0.5 else 0 for _ in range(119)],
             "vibrato_type": r.choice([0, 1, 2]), "vibrato_attack": self.pick(0, 255, 0), "vibrato_depth": self.pick(0, 255, 0),
             "vibrato_rate": self.pick(0, 63, 0), "volume_fadeout": self.pick(0, 8192, 0),
